@@ -9,7 +9,7 @@ From Gv Require Import lib.Bytes lib.Json lib.Gql lib.Exec
      C01.ProofsTwoStep C01.ProofsViol C01.ProofsCtxBase C01.ProofsCtx C01.ProofsTwoStepWf C01.ProofsPlanAlg
      C01.ProofsPlan C01.ProofsPlanOk C01.ProofsDedup C01.ProofsListHop
      C01.ProofsTvStatic C01.ProofsTvDefs C01.ProofsTvHidden C01.ProofsPlanGen C01.ProofsPlan2 C01.ProofsPlan2Link
-     C01.ProofsPlan2Root C01.ProofsFuelSuff C01.ProofsPlan3 C01.ProofsPlan3Keys C01.ProofsPlan3Fetch C01.ProofsPlan3Field
+     C01.ProofsPlan2Root C01.ProofsFuelSuff C01.ProofsNKeyDefs C01.ProofsPlan3 C01.ProofsPlan3Keys C01.ProofsPlan3Fetch C01.ProofsPlan3Field
      C01.ProofsPlan3Pos C01.ProofsPlan3Step C01.ProofsPlan3Root.
 Open Scope N_scope.
 
@@ -21,42 +21,51 @@ Section Main3.
   Variable tn : bool.
 
   (* induction over the depth of the plan tree: positions and the two kinds of fields together *)
-  Lemma PS_FL_all ab U eQ F :
+  Lemma PS_FL_all ndecls ab U eQ F :
     find_entity U (s_query sc) [] = Some eQ ->
     forallb (fun vd => not_repr (vd_name vd)) vdsM = true ->
     forallb (config_wf_b sc) subs = true ->
     univ3_contract_b sc subs decls rdecls U = true ->
     (ab = true -> types_ok_b sc U = true) ->
-    forall k, PS_at U sc subs vdsM supM F kq tn decls rdecls ab k /\ FL_at U sc subs vdsM supM F kq tn decls rdecls ab k /\
-              FA_at U sc subs vdsM supM F kq tn decls rdecls ab k.
+    nkey_contract_b sc ndecls U = true ->
+    ndecls_wf_b ndecls = true ->
+    forall k, PS_at U sc subs vdsM supM F kq tn decls rdecls ndecls ab k /\ FL_at U sc subs vdsM supM F kq tn decls rdecls ndecls ab k /\
+              FA_at U sc subs vdsM supM F kq tn decls rdecls ndecls ab k.
   Proof.
-    intros HeQ Hnr Hwfs Hc Hty. induction k as [|k (IHP & IHF & IHA)].
+    intros HeQ Hnr Hwfs Hc Hty Hnc Hnwf. induction k as [|k (IHP & IHF & IHA)].
     - split; [|split].
       + intros T pt e p Hst. discriminate.
       + intros T e a n args sh T' sub p q Hst. discriminate.
       + intros T e a n args sh T' csel rsel alts p q Hst. discriminate.
     - split; [|split].
-      + apply (PS_step U sc subs vdsM supM eQ F kq tn decls rdecls ab k HeQ Hnr Hwfs Hc IHF IHA).
-      + apply (FL_step U sc subs vdsM supM F kq tn decls rdecls ab k IHP).
-      + apply (FA_step U sc subs vdsM supM F kq tn decls rdecls ab k Hty IHP).
+      + apply (PS_step U sc subs vdsM supM eQ F kq tn decls rdecls ndecls ab k HeQ Hnr Hwfs Hc Hnc Hnwf IHF IHA).
+      + apply (FL_step U sc subs vdsM supM F kq tn decls rdecls ndecls ab k IHP).
+      + apply (FA_step U sc subs vdsM supM F kq tn decls rdecls ndecls ab k Hty IHP).
   Qed.
 
-  Lemma tvg_sound ab k ds :
-    tvg_static_b sc subs [] vdsM supM kq ab decls rdecls k ds = true ->
+  Lemma tvg_sound ndecls ab k ds :
+    tvg_static_b sc subs [] vdsM supM kq ab decls rdecls ndecls k ds = true ->
     forall (U : universe) (eQ : entity),
       univ3_contract_b sc subs decls rdecls U = true ->
       (ab = true -> types_ok_b sc U = true) ->
+      nkey_contract_b sc ndecls U = true ->
       find_entity U (s_query sc) [] = Some eQ ->
       forall F : nat, (ds_need sc ds <= F)%nat ->
         sres_weq (gateway3 U sc subs [] vdsM supM eQ F F tn k ds) (mono_client3 U sc [] vdsM supM eQ F ds).
   Proof.
-    intros Hok U eQ Hc Hty HeQ F HF.
+    intros Hok U eQ Hc Hty Hnc HeQ F HF.
     pose proof Hok as Hok'. unfold tvg_static_b in Hok'.
     apply andb_true_iff in Hok'. destruct Hok' as [Hok' _].
     apply andb_true_iff in Hok'. destruct Hok' as [Hok' Hnr].
     apply andb_true_iff in Hok'. destruct Hok' as [Hwfs _].
-    destruct (PS_FL_all ab U eQ F HeQ Hnr Hwfs Hc Hty k) as (_ & HFL & HFA).
-    apply (root3_sound U sc subs vdsM supM eQ F kq tn decls rdecls ab k HeQ Hc HFL HFA ds Hok HF).
+    apply andb_true_iff in Hwfs. destruct Hwfs as [Hnwf Hwfs].
+    destruct (PS_FL_all ndecls ab U eQ F HeQ Hnr Hwfs Hc Hty Hnc Hnwf k) as (_ & HFL & HFA).
+    apply (root3_sound U sc subs vdsM supM eQ F kq tn decls rdecls ndecls ab k HeQ Hc HFL HFA ds Hok HF).
+  Qed.
+
+  Lemma nkey_contract_nil U : nkey_contract_b sc [] U = true.
+  Proof.
+    unfold nkey_contract_b, nkey_consistent, nent_contract_b. apply andb_true_iff. split; apply forallb_forall; intros e _; reflexivity.
   Qed.
 
   (* plan trees without positions resolved per runtime type *)
@@ -68,7 +77,7 @@ Section Main3.
       forall F : nat, (ds_need sc ds <= F)%nat ->
         sres_weq (gateway3 U sc subs [] vdsM supM eQ F F tn k ds) (mono_client3 U sc [] vdsM supM eQ F ds).
   Proof.
-    intros Hok U eQ Hc HeQ F HF. apply (tvg_sound false k ds Hok U eQ Hc); [discriminate|exact HeQ|exact HF].
+    intros Hok U eQ Hc HeQ F HF. apply (tvg_sound [] false k ds Hok U eQ Hc); [discriminate|apply nkey_contract_nil|exact HeQ|exact HF].
   Qed.
 
   (* plan trees with positions resolved per runtime type (interface / union positions) *)
@@ -81,7 +90,21 @@ Section Main3.
         sres_weq (gateway3 U sc subs [] vdsM supM eQ F F tn k ds) (mono_client3 U sc [] vdsM supM eQ F ds).
   Proof.
     intros Hok U eQ Hc HeQ F HF. unfold univ4_contract_b in Hc. apply andb_true_iff in Hc. destruct Hc as [Hc Hty].
-    apply (tvg_sound true k ds Hok U eQ Hc); [intros _; exact Hty|exact HeQ|exact HF].
+    apply (tvg_sound [] true k ds Hok U eQ Hc); [intros _; exact Hty|apply nkey_contract_nil|exact HeQ|exact HF].
+  Qed.
+
+  (* ... and with keys with one level of nesting *)
+  Theorem tv5_sound ndecls k ds :
+    tv5_static_b sc subs [] vdsM supM kq decls rdecls ndecls k ds = true ->
+    forall (U : universe) (eQ : entity),
+      univ5_contract_b sc subs decls rdecls ndecls U = true ->
+      find_entity U (s_query sc) [] = Some eQ ->
+      forall F : nat, (ds_need sc ds <= F)%nat ->
+        sres_weq (gateway3 U sc subs [] vdsM supM eQ F F tn k ds) (mono_client3 U sc [] vdsM supM eQ F ds).
+  Proof.
+    intros Hok U eQ Hc HeQ F HF. unfold univ5_contract_b in Hc. apply andb_true_iff in Hc. destruct Hc as [Hc Hnc].
+    unfold univ4_contract_b in Hc. apply andb_true_iff in Hc. destruct Hc as [Hc Hty].
+    apply (tvg_sound ndecls true k ds Hok U eQ Hc); [intros _; exact Hty|exact Hnc|exact HeQ|exact HF].
   Qed.
 
   (* the same with the monolith as [execute] on the client's document *)
@@ -111,8 +134,23 @@ Section Main3.
     unfold client_doc3. rewrite (execute_query F sc U Mono vdsM _ [] (JObj supM) eQ HeQ). rewrite sres_response_id.
     apply (tv4_sound k ds Hok U eQ Hc HeQ F HF).
   Qed.
+  Theorem tv5_sound_execute ndecls k ds :
+    tv5_static_b sc subs [] vdsM supM kq decls rdecls ndecls k ds = true ->
+    forall (U : universe) (eQ : entity),
+      univ5_contract_b sc subs decls rdecls ndecls U = true ->
+      find_entity U (s_query sc) [] = Some eQ ->
+      forall F : nat, (ds_need sc ds <= F)%nat ->
+        sres_weq (gateway3 U sc subs [] vdsM supM eQ F F tn k ds)
+                 (sres_of_response (execute F sc U Mono (client_doc3 vdsM [] ds) None (JObj supM))).
+  Proof.
+    intros Hok U eQ Hc HeQ F HF.
+    unfold client_doc3. rewrite (execute_query F sc U Mono vdsM _ [] (JObj supM) eQ HeQ). rewrite sres_response_id.
+    apply (tv5_sound ndecls k ds Hok U eQ Hc HeQ F HF).
+  Qed.
 End Main3.
 Print Assumptions tv3_sound.
 Print Assumptions tv3_sound_execute.
 Print Assumptions tv4_sound.
 Print Assumptions tv4_sound_execute.
+Print Assumptions tv5_sound.
+Print Assumptions tv5_sound_execute.
